@@ -186,7 +186,7 @@ int main(int argc, char **argv) {
                      *gx::bnd({0, 1, 0xFFFF}, 0, 0xFFFF, 1, 1), *gx::bnd({0, 1, 0xFFFF}, 0, 0xFFFF, 1, 1), *gx::pick({0, 1}), *gx::pick({0, 0, 1, 3}), *gx::pick({0, 0, 0, 0, 1}), *gx::pick({0, 0, 0, 1, 59, 60, 61, 62, 500}), *gx::pick({0, 0, 0, 1, 2}), *gx::pick({0, 0, 0, 0, 1, 2, 3, 4, 5}), *gx::pick({0, 0, 1, 2})};
             return c;
         });
-        ok = run_cases(a, ev, "c11-random", a.n(200000, 2000000), 100, gen, run);
+        ok = run_cases(a, ev, "c11-random", a.n(600000, 4000000), 100, gen, run);
     }
     ev.write(a.out);
     return ok ? 0 : 1;
